@@ -52,6 +52,10 @@ SELECTORS3 = [':checked', ':disabled', ':required', ':link', ':enabled', '[xlink
 SELECTORS = [':root', ':empty', 'p:-soup-contains("gamma")', 'p:-soup-contains-own("note")', 'div:-soup-contains("only")',
              'li:nth-child(2n+1)', 'p.x > b, #s1', ':lang(en) b', 'body :not(:empty):first-child']
 PARSERS = ['html.parser', 'lxml', 'html5lib']
+MARKUP4 = ('<?xml version="1.0"?><?xml-stylesheet href="s"?><!-- c --><root><a id="e1"><?pi z?></a><b id="e2">t<?pi w?></b><c id="e3"/>'
+           '<d id="e4"><![CDATA[z]]></d><e id="e5"><!-- z --></e></root><?after x?>')
+SELECTORS4 = [':root', ':empty', ':root > :empty', 'a:-soup-contains("z")', 'b:-soup-contains-own("t")', ':-soup-contains("z")', ':not(:empty)',
+              'd:-soup-contains-own("z")', ':-soup-contains("w")']
 
 
 def plan(tier, seed):
@@ -68,7 +72,7 @@ def plan(tier, seed):
 
 def run_child(seq, timeout=120):
     spec = {'imports': [FORMS[i] for i in seq], 'markup': MARKUP, 'markup2': MARKUP2, 'selectors': SELECTORS + ['div:-soup-contains("beta")', '[data-v="3 4"]', '[data-v~=b], [data-v="7"]', '.k', '[data-v]:not([data-v*=a])'],
-            'parsers': PARSERS, 'markup3': MARKUP3, 'selectors3': SELECTORS3}
+            'parsers': PARSERS, 'markup3': MARKUP3, 'selectors3': SELECTORS3, 'markup4': MARKUP4, 'selectors4': SELECTORS4}
     d = tempfile.mkdtemp(prefix='c16.')
     try:
         sp, op = os.path.join(d, 'spec.json'), os.path.join(d, 'out.json')
